@@ -126,7 +126,9 @@ class C08(InterpProp):
         obs = super().run_impl(case)
         if 'base_ops' in case.payload:
             p2 = dict(case.payload, ops=case.payload['base_ops'])
-            base, _ = impl.run_case(p2, [copy.deepcopy(c) for c in case.aux['charts']])
+            from ..interp_prop import through_yaml
+            same_way = through_yaml if case.aux.get('oracle_charts') else (lambda c: c)
+            base, _ = impl.run_case(p2, [same_way(copy.deepcopy(c)) for c in case.aux['charts']])
             obs['_base'] = base
         return obs
 
@@ -139,7 +141,7 @@ class C08(InterpProp):
         return []
 
     def oracle(self, case, obs, res):
-        sc = case.aux['run_charts'][0]
+        sc = (case.aux.get('oracle_charts') or case.aux['run_charts'])[0]
         trans = list(sc.transitions)
         base = obs.get('_base', obs)
         ops = case.payload.get('base_ops', case.payload['ops'])
